@@ -15,6 +15,7 @@ def cols(runs):
 
 class C10(PureCheck):
     pid = "C10"
+    warm_every = 3
     rule = ("layouts of <=2 runs (quick; + sampled 3-run layouts with runs up to length 3) / <=3 runs (thorough) of length 0..2 "
             "over {a (narrow), U+FF25 (double-width), U+0301 (combining)} x {plain, red}; width, width_at_offset(n) for every "
             "0<=n<=len+1, width_aware_slice for every 0<=a<=b<=width+2 (empty ranges and ranges starting/ending inside a "
